@@ -95,6 +95,90 @@ Definition lx_test (args : list (list N)) (sts : list stage) (c : chan) : tres *
   | (r, c', sts') => (TOther r, c', sts')
   end.
 
+(* ------------------------------------------------------------------ environment variables (util.posix_environment) *)
+Definition EXPORT : list N := [101; 120; 112; 111; 114; 116]%N.             (* export *)
+Definition ECHO : list N := [101; 99; 104; 111]%N.                          (* echo *)
+
+(* mach.exec0("export", Raw(f"{escape(var)}={escape(value)}")) *)
+Definition export_line (var value : list N) : list N :=
+  EXPORT ++ [32%N] ++ sh_quote var ++ [61%N] ++ sh_quote value.
+
+(* the names "!" and "$" are not escaped *)
+Definition get_var (var : list N) : list N :=
+  if list_N_eqb var [33%N] || list_N_eqb var [36%N] then var else sh_quote var.
+
+(* mach.exec0("printf", "%s\\n", Raw(f'"${{{var}}}"'))[:-1] *)
+Definition PRINTF_S : list N := [112; 114; 105; 110; 116; 102; 32; 39; 37; 115; 92; 110; 39; 32]%N.   (* printf '%s\n'  *)
+Definition get_line (var : list N) : list N :=
+  PRINTF_S ++ [34; 36; 123]%N ++ get_var var ++ [125; 34]%N.
+
+Definition get_slice (out : list N) : list N := drop_last 1 out.
+
+Definition lx_exec_line (line : list N) (sts : list stage) (c : chan) : xres * chan * list stage :=
+  exec_model (utf8_enc line) None sts c.
+
+Definition lx_exec0_line (line : list N) (sts : list stage) (c : chan) : x0res * chan * list stage :=
+  match lx_exec_line line sts c with
+  | (XOk st out, c', sts') => (if (st =? 0)%Z then X0Ok out else X0Failure st, c', sts')
+  | (r, c', sts') => (X0Other r, c', sts')
+  end.
+
+Definition lx_env_set (var value : list N) (sts : list stage) (c : chan) : x0res * chan * list stage :=
+  match lx_exec0_line (export_line var value) sts c with
+  | (X0Ok _, c', sts') => (X0Ok value, c', sts')
+  | r => r
+  end.
+
+Definition lx_env_get (var : list N) (sts : list stage) (c : chan) : x0res * chan * list stage :=
+  match lx_exec0_line (get_line var) sts c with
+  | (X0Ok out, c', sts') => (X0Ok (get_slice out), c', sts')
+  | r => r
+  end.
+
+(* what the shell's echo builtin prints for one argument: bash prints it as it is, dash interprets backslash
+   escapes (environment model, validated against the real shells) *)
+Definition is_octal (c : N) : bool := ((48 <=? c) && (c <=? 55))%N.
+
+Fixpoint octal3 (s : list N) (k : nat) (acc : N) : N * list N :=
+  match k, s with
+  | S k', d :: r => if is_octal d then octal3 r k' (acc * 8 + (d - 48))%N else (acc, s)
+  | _, _ => (acc, s)
+  end.
+
+Fixpoint echo_dash_body (fuel : nat) (s : list N) : list N * bool :=   (* (output, stopped by \c) *)
+  match fuel with
+  | O => ([], false)
+  | S f =>
+      match s with
+      | [] => ([], false)
+      | 92%N :: d :: r =>
+          let simple (x : N) := let (o, st) := echo_dash_body f r in (x :: o, st) in
+          if (d =? 97)%N then simple 7%N
+          else if (d =? 98)%N then simple 8%N
+          else if (d =? 99)%N then ([], true)
+          else if (d =? 101)%N then simple 27%N
+          else if (d =? 102)%N then simple 12%N
+          else if (d =? 110)%N then simple 10%N
+          else if (d =? 114)%N then simple 13%N
+          else if (d =? 116)%N then simple 9%N
+          else if (d =? 118)%N then simple 11%N
+          else if (d =? 92)%N then simple 92%N
+          else if (d =? 48)%N then
+            let (v, r') := octal3 r 3 0%N in
+            let (o, st) := echo_dash_body f r' in ((v mod 256)%N :: o, st)
+          else if is_octal d then
+            let (v, r') := octal3 (d :: r) 3 0%N in
+            let (o, st) := echo_dash_body f r' in ((v mod 256)%N :: o, st)
+          else let (o, st) := echo_dash_body f (d :: r) in (92%N :: o, st)
+      | c :: r => let (o, st) := echo_dash_body f r in (c :: o, st)
+      end
+  end.
+
+Definition echo_out (dash : bool) (arg : list N) : list N :=
+  if dash then
+    let (o, stopped) := echo_dash_body (S (length arg)) arg in if stopped then o else o ++ [LF]
+  else arg ++ [LF].
+
 (* ------------------------------------------------------------------ observation *)
 Definition TBOT_PROMPT : list N :=
   [84;66;79;84;45;86;69;74;80;86;67;49;81;85;107;57;78;85;70;81;75;36;32]%N.   (* TBOT-VEJPVC1QUk9NUFQK$  *)
@@ -109,7 +193,9 @@ Definition lx_chan (ash : bool) (acc : list nat) : chan :=
 Inductive lx_call : Type :=
 | LExec (args : list (list N))
 | LExec0 (args : list (list N))
-| LTest (args : list (list N)).
+| LTest (args : list (list N))
+| LEnvSet (var value : list N)
+| LEnvGet (var : list N).
 
 Definition V_tres (r : tres) : V :=
   match r with TBool b => VL [VN 0; VN (if b then 1 else 0)] | TOther x => VL [VN 2; V_xres x] end.
@@ -119,6 +205,8 @@ Definition lx_step (k : lx_call) (sts : list stage) (c : chan) : V * chan :=
   | LExec args => let '(r, c', _) := lx_exec args sts c in (V_xres r, c')
   | LExec0 args => let '(r, c', _) := lx_exec0 args sts c in (V_x0res r, c')
   | LTest args => let '(r, c', _) := lx_test args sts c in (V_tres r, c')
+  | LEnvSet var v => let '(r, c', _) := lx_env_set var v sts c in (V_x0res r, c')
+  | LEnvGet var => let '(r, c', _) := lx_env_get var sts c in (V_x0res r, c')
   end.
 
 Fixpoint lx_run (ks : list (lx_call * list stage)) (c : chan) (acc : list V) : list V * chan :=
@@ -150,3 +238,5 @@ Definition shline_model (case : list (list N * list (list N))) : V :=
           case).
 
 Definition tty_model (case : bool * list N) : V := VB (tty_echo (fst case) (snd case)).
+
+Definition echo_model (case : bool * list N) : V := VB (echo_out (fst case) (snd case)).
